@@ -9,7 +9,7 @@ from hypothesis import strategies as st
 
 from vlib import bd_checks
 from vlib.cauchy import orders_upto
-from vlib.gen_matrix import energies, library_input, order_key, problems, states_of, to_oracle
+from vlib.gen_matrix import frame_effective, energies, library_input, order_key, problems, states_of, to_oracle
 from vlib.runner import Outcome
 
 ID = "C14"
@@ -72,6 +72,8 @@ def strategy(tier):
             "cross": draw(st.integers(0, 3)) > 0,
             "rot": [[draw(st.integers(0, max(N - 1, 0))), draw(st.integers(0, max(N - 1, 0))), draw(st.sampled_from(["r", "c", "p"]))] for _ in range(draw(st.integers(1, 3)))],
             "shear": [[draw(st.integers(0, max(N - 1, 0))), draw(st.integers(0, max(N - 1, 0))), draw(st.sampled_from([1, -1, 2]))] for _ in range(draw(st.integers(1, 3)))],
+            # biorthogonal variant only: make the perturbations Hermitian in the (oblique) lab frame
+            "lab_hermitian": draw(st.booleans()),
         }
         return {"problem": p, "variant": v, "par": par}
 
@@ -273,6 +275,11 @@ def check_case(case, enforce_all=False):
         terms36 = {",".join(map(str, key)): M for key, M in acc.items()}
         p = dict(p, terms=terms36, den=p["den"] * 36, repr="sympy")
         rep = "sympy"
+    if v == "biorthogonal" and par.get("lab_hermitian"):
+        # the canonical problem becomes T_k = R^-1 (M_k + M_k^dagger) R, so that the lab-frame terms R T_k R^-1 handed
+        # over together with the (R, L) pairs are Hermitian although H_0 and the frame are not
+        p = frame_effective(p, {"shear": par["shear"], "lab_hermitian": True})
+        out.labels.append("biorthogonal:lab-hermitian-terms")
     base_ham, base_kwargs = library_input(p)
     base = run(base_ham, base_kwargs, "canonical form")
     if base is None:
